@@ -58,6 +58,8 @@ struct VecIo<'a> {
     data: &'a [u8],
     place: Place,
     err: Option<String>,
+    wrong_len_calls: u64,
+    wrong_len_returned: u64,
 }
 impl<'a> VecIo<'a> {
     fn one<V: StoreBytes + Copy, M: Machine>(&mut self, m: M, nb: usize, wbits: usize) {
@@ -83,6 +85,27 @@ impl<'a> VecIo<'a> {
         }
         if !o.canaries_ok() {
             self.err = Some("a vector store wrote outside the output slice".into());
+        }
+        // "every length": a slice of the wrong length may be refused (panic) but a call that
+        // returns must have stayed inside it -- the short slice abuts unmapped memory / canaries
+        let seed = self.data[0] as usize;
+        for bl in [0usize, 1, nb / 2, nb - 1, nb - 4, (seed * 7) % nb] {
+            let mut o = GuardBuf::new(&vec![0x11u8; bl], self.place);
+            let stored = guarded(|| v.write_le(o.slice_mut())).is_ok();
+            let stored_be = guarded(|| v.write_be(o.slice_mut())).is_ok();
+            if !o.canaries_ok() {
+                self.err = Some(format!("a {}-byte vector stored into a {}-byte slice wrote outside the slice", nb, bl));
+            }
+            let mut g = GuardBuf::new(&a[..bl], self.place);
+            g.seal();
+            let loaded = guarded(|| {
+                let x: V = m.read_le(g.slice());
+                let y: V = m.read_be(g.slice());
+                std::hint::black_box((x, y));
+            })
+            .is_ok();
+            self.wrong_len_calls += 3;
+            self.wrong_len_returned += stored as u64 + stored_be as u64 + loaded as u64;
         }
     }
 }
@@ -121,6 +144,11 @@ impl<'a> MachFn for F8Ptr<'a> {
             }
         }
     }
+}
+
+thread_local! {
+    /// (vector load/store calls made with a slice of the wrong length, how many of them returned)
+    static WRONG_LEN: std::cell::RefCell<(u64, u64)> = std::cell::RefCell::new((0, 0));
 }
 
 fn exec_inner(c: &Case) -> Result<u64, String> {
@@ -237,8 +265,13 @@ fn exec_inner(c: &Case) -> Result<u64, String> {
         "vec" => {
             let (mname, ty) = c.what.split_once('/').unwrap();
             let data = r.bytes(64);
-            let mut v = VecIo { ty, data: &data, place: c.place, err: None };
+            let mut v = VecIo { ty, data: &data, place: c.place, err: None, wrong_len_calls: 0, wrong_len_returned: 0 };
             machines::run(mname, &mut v);
+            WRONG_LEN.with(|w| {
+                let mut w = w.borrow_mut();
+                w.0 += v.wrong_len_calls;
+                w.1 += v.wrong_len_returned;
+            });
             match v.err {
                 Some(e) => Err(format!("{} {}: {}", mname, ty, e)),
                 None => Ok(64),
@@ -281,6 +314,14 @@ pub fn exec(cx: &mut Ctx, c: &Case) {
     api::force_backend(0);
     cx.log.eval(1);
     let sigp = format!("C16|{}|{}", c.fam, api::profile());
+    WRONG_LEN.with(|w| {
+        let mut w = w.borrow_mut();
+        if w.0 != 0 {
+            cx.log.event("vector_io_calls_with_wrong_slice_length", w.0);
+            cx.log.event("vector_io_calls_with_wrong_slice_length_that_returned", w.1);
+            *w = (0, 0);
+        }
+    });
     match r {
         Ok(Ok(n)) => cx.log.event("bytes_touched", n),
         Ok(Err(d)) => cx.log.violation(&format!("{}|wrong-result|{}", sigp, place_class(c.place)), &d),
